@@ -330,6 +330,34 @@ namespace verif
             rep.label("burst(simultaneous claims from 4 threads)");
             desc = "[burst: " + std::to_string(burst_rounds) + " rounds x 4 threads released together] " + describe();
         }
+        // "marathon" shape (derived from the request count, no further choice consumed): one connection, one user thread,
+        // 135 requests with a 10 ms time-out that the server reads and never answers (it keeps serving the connection), then
+        // three ordinary ones.  Every one of the 135 must be rejected, the last three fulfilled: a time-out is not a resource
+        // that runs out (each connection's timers come from a pool).
+        if (burst_rounds == 0 && n % 11 == 3)
+        {
+            const unsigned T = 135;
+            maxconn  = 1;
+            uthreads = 1;
+            n        = T + 3;
+            reqs     = std::vector<Req>(n);
+            kinds.clear();
+            for (unsigned i = 0; i < n; ++i)
+            {
+                reqs[i].tag = "c" + std::to_string(case_no) + "m" + std::to_string(i);
+                if (i < T)
+                {
+                    reqs[i].timeout_ms        = 10;
+                    reqs[i].plan.b            = NeverAnswer;
+                    reqs[i].plan.keep_serving = true;
+                }
+            }
+            kinds.insert(int(NeverAnswer));
+            kinds.insert(int(Immediate));
+            segmented = true;
+            rep.label("marathon(135 expiring time-outs on one connection)");
+            desc = "[marathon: 135 never-answered requests with a 10 ms time-out on one connection, then 3 ordinary ones] " + describe();
+        }
         // One batch in four that is not a burst (by the request count, no choice consumed) gets one more request, issued
         // last by thread 0: a time-out of 1.6-1.9 s and a server that answers 1.12 s after it has the request - well
         // inside the time-out, later than a whole second.  Appended, so that every other request of a saved input
